@@ -207,7 +207,7 @@ Definition e2 : entry := mkE 1 42.
 
 (* node 1 campaigns in term 1, node 2 votes, node 1 becomes leader (no-op at index 1),
    a client entry goes to index 2, node 2 and 3 replicate, node 1 commits index 2, node 2
-   learns the commit from a heartbeat, node 2 restarts with commit 0, then node 3
+   learns the commit from a heartbeat, node 2 restarts with commit 0 (log kept), then node 3
    campaigns in term 2 with the votes of 2 and 3, becomes leader, replicates and commits *)
 Definition run_a : list label := [
   LTimeout 1;
@@ -216,17 +216,19 @@ Definition run_a : list label := [
   LPropose 1 42;
   LSendAE 1 0 2 0;
   LHandleAE 2 1 1 0 0 [e1; e2] 0;
+  LSelfAck 1;
   LAdvanceCommit 1 2;
   LSendHB 1 2 2; LHandleHB 2 1 1 2 ].
 
 Definition run_b : list label := [
   LHigherTerm 3 1; LHandleAE 3 1 1 0 0 [e1; e2] 0;
-  LRestart 2 0;
+  LRestart 2 0 2;
   LTimeout 3;
   LHigherTerm 2 2; LHandleRV 2 2 3 2 1;
   LBecomeLeader 3;
   LSendAE 3 2 1 0;
   LHandleAE 2 2 3 2 1 [noop 2] 0;
+  LSelfAck 3;
   LAdvanceCommit 3 3;
   LSendAE 3 3 0 3;
   LHigherTerm 1 2; LHandleAE 1 2 3 2 1 [noop 2] 0; LHandleAE 1 2 3 3 2 [] 3 ].
@@ -268,6 +270,16 @@ Example disabled_labels :
   run V3 (init) [LTimeout 1; LTimeout 3; LHigherTerm 2 1; LHandleRV 2 1 1 0 0;
                  LHandleRV 2 1 3 0 0] = None /\
   run V3 (init) (run_a ++ [LHandleAE 2 1 1 0 0 [mkE 1 7] 0]) = None.
+Proof. vm_compute. repeat split. Qed.
+
+(* a leader that crashes after sending entries it has not written yet loses them
+   (Restart 1 0 1 keeps one entry), but cannot lose what it acknowledged *)
+Example crash_loses_unwritten_suffix_only :
+  obs (run V3 (init) [LTimeout 1; LHigherTerm 2 1; LHandleRV 2 1 1 0 0; LBecomeLeader 1;
+                      LSelfAck 1; LPropose 1 42; LSendAE 1 0 2 0; LRestart 1 0 1]) 1
+    = Some (1, Follower, [e1], 0) /\
+  run V3 (init) [LTimeout 1; LHigherTerm 2 1; LHandleRV 2 1 1 0 0; LBecomeLeader 1;
+                 LSelfAck 1; LPropose 1 42; LSendAE 1 0 2 0; LRestart 1 0 0] = None.
 Proof. vm_compute. repeat split. Qed.
 
 (* ================================================================== *)
@@ -388,6 +400,6 @@ Proof. vm_compute. repeat split. Qed.
    cannot restart below its snapshot *)
 Example run_c_disabled :
   run2 V3 init2 (run_c ++ [L2Base (LSendAE 3 1 1 0)]) = None /\
-  run2 V3 init2 (run_c ++ [L2Base (LRestart 4 0)]) = None /\
+  run2 V3 init2 (run_c ++ [L2Base (LRestart 4 0 3)]) = None /\
   run2 V3 init2 (run_c ++ [L2Compact 2 4]) = None.
 Proof. vm_compute. repeat split. Qed.
